@@ -2,8 +2,8 @@
 import os
 from tools.py2lean import gen_c03
 
-LEAN_TARGETS = ["EasyFEAVerif.Props.C03"]
-PROPS_MODULES = ["EasyFEAVerif.Props.C03"]
+LEAN_TARGETS = ["EasyFEAVerif.Props.C03", "EasyFEAVerif.Props.C03Key"]
+PROPS_MODULES = ["EasyFEAVerif.Props.C03", "EasyFEAVerif.Props.C03Key"]
 TRUSTED_EXTRA = [
     "C03: the model is hand-written (Model/Assembly.lean); numpy repeat/concatenate/searchsorted/bincount and scipy's canonical CSR pattern are modelled from their documentation and compared with the real arrays (pattern, element->slot map, data) on every run",
 ]
